@@ -47,7 +47,7 @@ type taskSpec struct {
 	cond    *cmdRes
 	before  []cmdRes
 	nCmds   int
-	vars    int // -1: no variations key
+	vars    int      // -1: no variations key
 	res     []cmdRes // variation-major, len = max(vars,1)*nCmds (vars=0: empty)
 	after   []cmdRes
 	allow   bool
